@@ -77,6 +77,10 @@ func c06Plan(tier string) []PlanItem {
 		s.AllowDrop = true
 		add(s, d)
 	}
+	// the only instance steps down through its health checker, recovers, and has to fill
+	// the vacancy its own expired record leaves
+	s = scnTerms("health-stepdown-then-vacancy-K1", K1, []string{"ok", "bad", "bad", "bad", "ok"}, 3, "A")
+	add(s, d)
 	// the candidate's watch channel closes before the vacancy
 	s = scnFailoverDel("failover-del2-K1-watch-closed", K1, "A", "B")
 	s.Script = append(s.Script, Item{At: 1*s.H + 11*ms, Actor: "chaos", Do: "closewatch", Inst: "B"})
